@@ -74,6 +74,7 @@ func (s *scripted) Authorize(ctx context.Context, a k8sauth.Attributes) (k8sauth
 		s.mu.Lock()
 		s.unexpected = append(s.unexpected, fmt.Sprintf("verb=%s resource=%s name=%s ns=%s", a.GetVerb(), a.GetResource(), a.GetName(), a.GetNamespace()))
 		s.mu.Unlock()
+		s.arrived <- -1 // not one of the three expected questions: answered at once with NoOpinion
 		return k8sauth.DecisionNoOpinion, "", nil
 	}
 	ansIdx := q
@@ -92,6 +93,14 @@ func (s *scripted) Authorize(ctx context.Context, a k8sauth.Attributes) (k8sauth
 		return an.d, "scripted", errors.New("scripted authorizer error")
 	}
 	return an.d, "scripted", nil
+}
+
+func (s *scripted) ConditionsAwareAuthorize(ctx context.Context, a k8sauth.Attributes) k8sauth.ConditionsAwareDecision {
+	return k8sauth.ConditionsAwareDecisionFromParts(s.Authorize(ctx, a))
+}
+
+func (s *scripted) EvaluateConditions(ctx context.Context, decision k8sauth.ConditionsAwareDecision, data k8sauth.ConditionsData) (k8sauth.Decision, string, error) {
+	return k8sauth.DecisionDeny, "", k8sauth.ErrorConditionEvaluationNotSupported
 }
 
 func exec1(h *rt.H, op string) string {
@@ -127,12 +136,16 @@ func exec1(h *rt.H, op string) string {
 	var err error
 	if hasAuth && attrsOK {
 		got := 0
+		present := map[int]bool{}
 		timeout := time.After(20 * time.Second)
 	wait:
 		for got < 3 {
 			select {
-			case <-s.arrived:
+			case slot := <-s.arrived:
 				got++
+				if slot >= 0 {
+					present[slot] = true
+				}
 			case err = <-done:
 				h.OracleFail("fewer-than-three-checks", "AuthorizeTierOperation returned before asking its three questions", map[string]any{"op": op, "asked": got})
 				done <- err
@@ -145,6 +158,9 @@ func exec1(h *rt.H, op string) string {
 			for _, c := range order {
 				slot := int(c - '0')
 				close(s.gate[slot])
+				if !present[slot] {
+					continue
+				}
 				<-s.returned
 				for i := 0; i < 3; i++ {
 					runtime.Gosched()
